@@ -251,6 +251,31 @@ pub fn scenario(u: &Unit) -> String {
         }
         None => ob("oc.written", f()),
     }
+    // ... and they are what a reader of that file gets (the file is what a later evaluation starts from)
+    if let Some(text) = &oc {
+        use cteepbd::types::MetaVec;
+        spec(false);
+        let parsed = text.parse::<cteepbd::Components>();
+        spec(true);
+        match parsed {
+            Ok(c) => {
+                match c.get_meta_f32("CTE_AREAREF") {
+                    Some(g) => ob("oc.read-back.CTE_AREAREF", g.close_dec(a_eff, 2, 1.0)),
+                    None => ob("oc.read-back.CTE_AREAREF.present", f()),
+                }
+                match c.get_meta_f32("CTE_KEXP") {
+                    Some(g) => ob("oc.read-back.CTE_KEXP", g.close_dec(k_eff, 1, 1.0)),
+                    None => ob("oc.read-back.CTE_KEXP.present", f()),
+                }
+                let keys: Vec<&str> = c.meta.iter().map(|m| m.key.as_str()).collect();
+                let mut uniq = keys.clone();
+                uniq.sort();
+                uniq.dedup();
+                ob("oc.metadata-keys-unique", if uniq.len() == keys.len() { t() } else { f() });
+            }
+            Err(_) => ob("oc.parses", f()),
+        }
+    }
     // the RED1 factor given by option or metadata is recorded, at the three decimals of factors
     if red1 != "none" {
         let d = Dom::Range(0.0, 10.0);
